@@ -93,6 +93,29 @@ class Decider:
             k = _chain(e)
             if k is not None and k in env:
                 return env[k]
+        if isinstance(e, ast.Subscript) and isinstance(e.value, ast.Name) and e.value.id not in env:
+            # TABLE[key] with TABLE a module-level dict literal and the key decided by the valuation: TABLE[(a, b)] / TABLE[a]
+            from .loader import ConstInfo
+
+            r = self.prog.repo.lookup(e.value.id, fi.module, fi)
+            lit = getattr(r.assigns[0], "value", None) if isinstance(r, ConstInfo) and len(r.assigns) == 1 else None
+            if isinstance(lit, ast.Dict):
+                atom = self._atom(benv, aliases)
+
+                def key_of(k: ast.AST):
+                    if isinstance(k, ast.Tuple):
+                        parts = [key_of(x) for x in k.elts]
+                        return None if any(p is None for p in parts) else tuple(parts)
+                    if isinstance(k, ast.Constant):
+                        return ("c", k.value)
+                    b = bool_eval(k, atom)
+                    return None if b is None else ("c", b)
+
+                want = key_of(e.slice)
+                if want is not None:
+                    for k, v in zip(lit.keys, lit.values):
+                        if k is not None and key_of(k) == want:
+                            return self.ev(fi, v, env, benv, aliases, depth)
         if isinstance(e, ast.BinOp) and isinstance(e.op, ast.Add):
             ls, rs = self.ev(fi, e.left, env, benv, aliases, depth), self.ev(fi, e.right, env, benv, aliases, depth)
             if len(ls) * len(rs) <= 16:
